@@ -145,11 +145,15 @@ package filter
 //@ spec func hasElem64(ser []byte, e []byte) bool = exists m :: 0 <= m && 8*m + 8 <= len(ser) && sameBytes(e, ser[8*m:8*m+8])
 //
 // extractElements: "are all query values elements of this stored array". It must never answer false when they all are, and
-// it must leave the stored (cached, shared) dictionary value exactly as it was.
+// it must leave the stored (cached, shared) dictionary value exactly as it was. For string arrays the element-level
+// statement needs the decode semantics of escaped entries, which is not specified here; what is proved instead is the
+// discipline it rests on (stored-entry): every entry handed to the in-place decoder, for every query value, is still the
+// entry as it was stored - no scan ever sees bytes rewritten by an earlier scan.
 //@ func DictionaryFilter.extractElements
 //@   mode int
 //@   requires df != nil
 //@   inline encoding.UnmarshalVarArray
+//@   at-call encoding.UnmarshalVarArray requires stored-entry: len(arg0) == len(serializedArray) && 0 <= arg1 && (forall j :: arg1 <= j && j < len(arg0) ==> arg0[j] == old(serializedArray[j]))
 //@   modifies serializedArray[0:len(serializedArray)]
 //@   ensures  unchanged: forall j :: 0 <= j && j < len(serializedArray) ==> serializedArray[j] == old(serializedArray[j])
 //@   ensures  no-false-negative-int64: df.valueType == pbv1.ValueTypeInt64Arr && (forall t :: 0 <= t && t < len(values) ==> hasElem64(serializedArray, values[t][:])) ==> result
@@ -158,7 +162,8 @@ package filter
 //@   loop 1 decreases len(serializedArray) - i
 //@   loop 2 invariant unchanged: forall j :: 0 <= j && j < len(serializedArray) ==> serializedArray[j] == old(serializedArray[j])
 //@   loop 2 invariant escaped <==> !(forall j :: 0 <= j && j < len(serializedArray) ==> serializedArray[j] != 92)
-//@   loop 3 invariant 0 <= idx
+//@   loop 3 invariant 0 <= idx && len(arr) == len(serializedArray)
+//@   loop 3 invariant pristine-tail: forall j :: idx <= j && j < len(arr) ==> arr[j] == old(serializedArray[j])
 //@   loop 3 invariant unchanged: forall j :: 0 <= j && j < len(serializedArray) ==> serializedArray[j] == old(serializedArray[j])
 //@   loop 3 invariant private: escaped ==> fresh(arr) || len(arr) == 0
 //@   loop 3 invariant shared: !escaped ==> samehdr(arr, serializedArray)
